@@ -14,6 +14,34 @@ definition wins / patterns accumulate" over that chain.  Helper lemmas: Goyang/L
 
 `env : Env` is what the type layer reads from the loaded set (registry, include links, identity
 dictionary, fuel); the theorems hold for every environment, in particular for `Env.of reg`.
+
+What is proved (all for unbounded inputs):
+* soundness: `resolve_binds`, `resolve_errors` (+ `unknown_is_error`, `unresolvable_is_error`,
+  `cyclic_is_error_below`), `resolve_chain` / `resolve_inherits` / `resolve_members`, `fuel_suffices`;
+* completeness: `resolve_complete_binding` (for a `Resolvable` type statement the model raises no
+  binding-level error: unknown and cyclic names are the ONLY binding-level error sources),
+  `resolve_complete` (what the specification accepts — `Admissible`: a finite derivation along which
+  every restriction passes the decidable side conditions `typeOk` / `typedefOk` of
+  Lemmas/TypesRestr.lean — is resolved without error, with the kind / fraction-digits / range /
+  length the specification computes), `resolve_accepts` (converse) and `resolve_errors_iff` (the
+  model reports an error iff the specification rejects).  Standing hypotheses of the completeness
+  half (`Standing`, Lemmas/TypesComplete.lean): sequence numbers identify the loaded modules, every
+  include is linked, import prefixes are distinct, no name met below the reference denotes two
+  typedefs (`UnambiguousBelow`), type statements met below the reference are identified by their
+  position (`KeysIdentify`); the reference stands in the loaded set; fuel above the number of type
+  statements.  All are shown satisfiable on a concrete schema (`Ex.standing_env`);
+* executable vs relational specification: `spec_exec_binds_sound`, `spec_exec_binds_iff`,
+  `spec_exec_unbound`, `spec_exec_chain`, `spec_exec_chain_unique`, `spec_exec_inherits`,
+  `spec_exec_members`, `spec_exec_accepts`, `spec_exec_error`;
+* `unambiguous_false`: the hypothesis `Spec.Types.Unambiguous` of the older `cyclic_is_error` holds of
+  no registry (that theorem is vacuous, kept for the record, superseded by `cyclic_is_error_below`).
+Not proved: that `Env.of reg` satisfies `Linked` whenever `linkOk reg` (the linker is the identity
+layer's, C11); a decidable sufficient condition on the registry for `UnambiguousBelow` /
+`KeysIdentify` (on concrete schemas they are discharged through the executable binding, see `Ex`);
+the side conditions `typeOk` are stated with the sub-models' functions (`Range.applyRange`,
+`Number.asRangeInt`, `enumFold`, `Identity.findIdentityBase`), whose own specifications are the
+subject of C10 / C15 / C14 / C11; when `chainOf` answers `noClaim` nothing is claimed.
+Helper lemmas: Goyang/Lemmas/Types*.lean.
 -/
 namespace Goyang.Props.C09
 open Goyang.Model Goyang.Model.Types Goyang.Spec.Types Goyang.Lemmas.Types
@@ -206,7 +234,9 @@ theorem unresolvable_is_error (env : Env) (fuel : Nat) (root : Mod) (scope : Lis
 
 /-- … and so is a type statement that is defined in terms of itself or depends on one that is
 (`Cyclic`: a chain of "names the typedef whose type is" / "has the member type" steps that comes
-back to where it started), in every schema in which no name denotes two typedefs. -/
+back to where it started), in every schema in which no name denotes two typedefs.
+SUPERSEDED by `cyclic_is_error_below`: the hypothesis `Unambiguous env.reg` holds of no registry
+(`unambiguous_false` below), so this statement is vacuous; it is kept unchanged for the record. -/
 theorem cyclic_is_error (env : Env) (hU : Unambiguous env.reg) (fuel : Nat) (root : Mod) (scope : List Stmt) (t : Stmt)
     (stack : List TypeKey) (ht : scopeKinds.contains t.kw = false) (hc : Cyclic env.reg (root, scope, t)) :
     (resolveTypeF env fuel root scope t stack).errs ≠ [] :=
@@ -581,16 +611,16 @@ with a finite derivation (`Resolvable`: every name on the way binds, no cycle) s
 loaded set, `Type.resolve` raises no binding-level error — no unknown type, no unknown prefix, no
 cycle, no exhausted budget, none of the model's "cannot happen" records: every error it returns is
 a restriction error (range, length, enum, fraction-digits, identity base, pattern, …).
-Standing hypotheses (`Standing`): sequence numbers identify the loaded modules, every include is
-linked, import prefixes are distinct, no name met on the way denotes two typedefs, type statements
+Standing hypotheses (`Standing`): sequence numbers identify the loaded modules, every include of
+every part of a schema is linked, import prefixes are distinct, no name met on the way denotes two typedefs, type statements
 are identified by their position. -/
 theorem resolve_complete_binding (env : Env) (root : Mod) (scope : List Stmt) (t : Stmt)
     (hS : Standing env (root, scope, t))
-    (hroot : root ∈ env.reg.mods) (ht : t ∈ descendants root.stmt) (hkw : t.kw = "type")
+    (hroot : root ∈ env.reg.mods) (hsch : PartOfSchema env.reg root) (ht : t ∈ descendants root.stmt) (hkw : t.kw = "type")
     (hscope : ∀ s ∈ scope, s ∈ descendants root.stmt)
     (hres : Resolvable env.reg root scope t) (fuel : Nat) (hfuel : (allTypeKeys env.reg).length + 1 ≤ fuel) :
     ∀ e ∈ (resolveTypeF env fuel root scope t []).errs, ¬ BindErr e ∧ e.cls ≠ "out-of-fuel" :=
-  resolve_noBind env (root, scope, t) hS fuel root scope t [] ⟨hroot, ht, hscope⟩ hkw hres (UsesStar.refl _)
+  resolve_noBind env (root, scope, t) hS fuel root scope t [] ⟨hroot, ht, hscope⟩ hsch hkw hres (UsesStar.refl _)
     (fun k hk => by cases hk) List.nodup_nil (fun k hk => by cases hk) (by simpa using hfuel)
 
 /-- **Completeness.**  A type statement the specification accepts (`Admissible`: a finite derivation
@@ -599,11 +629,11 @@ resolved without any error, to a type whose kind, fraction-digits, range and len
 the specification computes. -/
 theorem resolve_complete (env : Env) (root : Mod) (scope : List Stmt) (t : Stmt) (a : Attrs)
     (hS : Standing env (root, scope, t))
-    (hroot : root ∈ env.reg.mods) (ht : t ∈ descendants root.stmt) (hkw : t.kw = "type")
+    (hroot : root ∈ env.reg.mods) (hsch : PartOfSchema env.reg root) (ht : t ∈ descendants root.stmt) (hkw : t.kw = "type")
     (hscope : ∀ s ∈ scope, s ∈ descendants root.stmt)
     (hadm : Admissible env root scope t a) (fuel : Nat) (hfuel : (allTypeKeys env.reg).length + 1 ≤ fuel) :
     ∃ y, resolveTypeF env fuel root scope t [] = { ty := some y, errs := [] } ∧ attrsOf y = a :=
-  resolve_admissible env (root, scope, t) hS fuel root scope t [] a ⟨hroot, ht, hscope⟩ hkw hadm (UsesStar.refl _)
+  resolve_admissible env (root, scope, t) hS fuel root scope t [] a ⟨hroot, ht, hscope⟩ hsch hkw hadm (UsesStar.refl _)
     (fun k hk => by cases hk) List.nodup_nil (fun k hk => by cases hk) (by simpa using hfuel)
 
 /-- The converse (soundness of acceptance, no hypotheses on the loaded set): an error-free
@@ -617,12 +647,12 @@ theorem resolve_accepts (env : Env) (fuel : Nat) (root : Mod) (scope : List Stmt
 /-- **The model reports an error iff the specification rejects.** -/
 theorem resolve_errors_iff (env : Env) (root : Mod) (scope : List Stmt) (t : Stmt)
     (hS : Standing env (root, scope, t))
-    (hroot : root ∈ env.reg.mods) (ht : t ∈ descendants root.stmt) (hkw : t.kw = "type")
+    (hroot : root ∈ env.reg.mods) (hsch : PartOfSchema env.reg root) (ht : t ∈ descendants root.stmt) (hkw : t.kw = "type")
     (hscope : ∀ s ∈ scope, s ∈ descendants root.stmt) (fuel : Nat) (hfuel : (allTypeKeys env.reg).length + 1 ≤ fuel) :
     (resolveTypeF env fuel root scope t []).errs ≠ [] ↔ ¬ ∃ a, Admissible env root scope t a := by
   constructor
   · rintro hne ⟨a, hadm⟩
-    obtain ⟨y, hy, _⟩ := resolve_complete env root scope t a hS hroot ht hkw hscope hadm fuel hfuel
+    obtain ⟨y, hy, _⟩ := resolve_complete env root scope t a hS hroot hsch ht hkw hscope hadm fuel hfuel
     rw [hy] at hne
     exact hne rfl
   · intro hno he
@@ -697,6 +727,194 @@ def env3 : Env := { reg := { mods := [mC], modules := [("c", 0)] }, link := {}, 
 example : ((resolveTypeF env3 10 mC [S "c.yang" "leaf" "l1" 4 1 [tyCy], c] tyCy []).errs.map (·.cls)) = ["cycle"] := by decide
 example : ((resolveTypeF env3 10 mC [S "c.yang" "leaf" "l2" 5 1 [tyUn], c] tyUn []).errs.map (·.cls)) = ["unknown-type"] := by decide
 example : ((resolveTypeF env3 10 mC [S "c.yang" "leaf" "l3" 6 1 [tyPf], c] tyPf []).errs.map (·.cls)) = ["unknown-prefix"] := by decide
+/-! ### Completeness on the shadowing example: `type t` in the list binds to the list's typedef
+
+The standing hypotheses are discharged through the executable binding (`bindType … = …` by kernel
+evaluation, then `unambiguousAt_of_bind`, `uses_of_bind`): the sites below the reference are the
+reference itself (`s0`) and the type statement of the list's typedef (`s1`). -/
+def tyL : Stmt := S "m.yang" "type" "int32" 4 20 []
+def s0 : Site := (mM, [leaf, lst, con, m], ty)
+def s1 : Site := (mM, [tdL, lst, con, m], tyL)
+
+theorem seqId_env : SeqId env.reg := by
+  intro a ha b hb _
+  have ha' : a ∈ [mM] := ha
+  have hb' : b ∈ [mM] := hb
+  rw [List.mem_singleton] at ha' hb'
+  rw [ha', hb']
+
+theorem mM_mem : mM ∈ env.reg.mods := List.mem_singleton.mpr rfl
+theorem mM_sch : PartOfSchema env.reg mM :=
+  ⟨mM, (show Identity.moduleEntries env.reg = [mM] from rfl) ▸ List.mem_singleton.mpr rfl, IncludesStar.refl _⟩
+
+theorem bind0 : bindType env.reg mM [leaf, lst, con, m] ty.arg = .typedef mM tdL [lst, con, m] := by rfl
+
+theorem uses_s0 {x : Site} (h : Uses env.reg s0 x) : x = s1 := by
+  rcases uses_of_bind seqId_env mM_mem bind0 (tt := tyL) rfl h with h | ⟨ut, hut, _⟩
+  · exact h
+  · exact absurd hut (by rw [show ty.all "type" = [] from rfl]; exact List.not_mem_nil)
+
+theorem uses_s1 {x : Site} (h : Uses env.reg s1 x) : False := by
+  obtain ⟨ut, hut, _⟩ := uses_of_builtin (t := tyL) (by decide) h
+  exact absurd hut (by rw [show tyL.all "type" = [] from rfl]; exact List.not_mem_nil)
+
+theorem reach {a : Site} (h : UsesStar env.reg s0 a) : a = s0 ∨ a = s1 := by
+  induction h with
+  | refl => exact Or.inl rfl
+  | tail _ hbc ih =>
+    rcases ih with rfl | rfl
+    · exact Or.inr (uses_s0 hbc)
+    · exact (uses_s1 hbc).elim
+
+theorem plus_s1 {x : Site} (h : UsesPlus env.reg s1 x) : False := by
+  cases h with
+  | one h => exact uses_s1 h
+  | cons h _ => exact uses_s1 h
+
+theorem plus_s0 {x : Site} (h : UsesPlus env.reg s0 x) : x = s1 := by
+  cases h with
+  | one h => exact uses_s0 h
+  | cons h h' => rw [uses_s0 h] at h'; exact (plus_s1 h').elim
+
+/-- The standing hypotheses of `resolve_complete` hold of the example. -/
+theorem standing_env : Standing env s0 where
+  seqId := seqId_env
+  linked := by
+    intro a ha _
+    have ha' : a ∈ [mM] := ha
+    rw [List.mem_singleton] at ha'
+    subst ha'
+    rfl
+  imports := by
+    intro a ha i hi
+    have ha' : a ∈ [mM] := ha
+    rw [List.mem_singleton] at ha'
+    subst ha'
+    exact absurd hi (by rw [show mM.imports = [] from rfl]; exact List.not_mem_nil)
+  unamb := by
+    intro a ha
+    rcases reach ha with rfl | rfl
+    · exact unambiguousAt_of_bind seqId_env mM_mem bind0
+    · exact unambiguousAt_of_builtin (t := tyL) (by decide)
+  keys := by
+    intro a b ha hab hk
+    rcases reach ha with rfl | rfl
+    · rw [plus_s0 hab] at hk
+      exact absurd hk (by decide)
+    · exact (plus_s1 hab).elim
+
+theorem no_members_ty : ∀ ut ∈ ty.all "type", Resolvable env.reg mM (ty :: [leaf, lst, con, m]) ut := by
+  intro ut hut
+  exact absurd hut (by rw [show ty.all "type" = [] from rfl]; exact List.not_mem_nil)
+
+/-- The reference is `Resolvable` … -/
+theorem resolvable_ty : Resolvable env.reg mM [leaf, lst, con, m] ty :=
+  Resolvable.derived mM tdL [lst, con, m] tyL (bindType_sound _ _ _ _ _ _ _ bind0) rfl
+    (Resolvable.builtin (by decide)
+      (by intro ut hut; exact absurd hut (by rw [show tyL.all "type" = [] from rfl]; exact List.not_mem_nil)))
+    no_members_ty
+
+/-- … and accepted by the specification (`typeOk` / `typedefOk` evaluate to `true` at both levels). -/
+theorem admissible_ty : ∃ a, Admissible env mM [leaf, lst, con, m] ty a := by
+  obtain ⟨y, hy⟩ : ∃ y, builtin? tyL.arg = some y := ⟨_, rfl⟩
+  refine ⟨_, Admissible.derived mM tdL [lst, con, m] tyL _ (fun _ => ⟨"", 0, [], []⟩)
+    (bindType_sound _ _ _ _ _ _ _ bind0) rfl
+    (Admissible.builtin y (fun _ => ⟨"", 0, [], []⟩) hy ?_ ?_) ?_ ?_ ?_⟩
+  · cases hy; decide +kernel
+  · intro ut hut; exact absurd hut (by rw [show tyL.all "type" = [] from rfl]; exact List.not_mem_nil)
+  · decide +kernel
+  · cases hy; decide +kernel
+  · intro ut hut; exact absurd hut (by rw [show ty.all "type" = [] from rfl]; exact List.not_mem_nil)
+
+open Goyang.Lemmas.TypesFuel in
+theorem ty_in_m : ty ∈ descendants mM.stmt ∧ ∀ s ∈ [leaf, lst, con, m], s ∈ descendants mM.stmt := by
+  have hm : m ∈ descendants mM.stmt := self_mem_descendants _
+  have hcon : con ∈ descendants mM.stmt := child_below hm (List.Mem.tail _ (List.Mem.tail _ (List.Mem.head _)))
+  have hlst : lst ∈ descendants mM.stmt := child_below hcon (List.Mem.tail _ (List.Mem.tail _ (List.Mem.head _)))
+  have hleaf : leaf ∈ descendants mM.stmt := child_below hlst (List.Mem.tail _ (List.Mem.head _))
+  refine ⟨child_below hleaf (List.Mem.head _), ?_⟩
+  intro s hs
+  simp only [List.mem_cons, List.not_mem_nil, or_false] at hs
+  rcases hs with rfl | rfl | rfl | rfl <;> assumption
+
+/-- `resolve_complete_binding`, `resolve_complete` and `resolve_errors_iff` apply: no error, for every sufficient fuel. -/
+example (fuel : Nat) (hfuel : (allTypeKeys env.reg).length + 1 ≤ fuel) :
+    (resolveTypeF env fuel mM [leaf, lst, con, m] ty []).errs = [] := by
+  obtain ⟨a, hadm⟩ := admissible_ty
+  obtain ⟨y, hy, _⟩ := resolve_complete env mM [leaf, lst, con, m] ty a standing_env mM_mem mM_sch ty_in_m.1 rfl ty_in_m.2 hadm fuel hfuel
+  rw [hy]
+example (fuel : Nat) (hfuel : (allTypeKeys env.reg).length + 1 ≤ fuel) :
+    ∀ e ∈ (resolveTypeF env fuel mM [leaf, lst, con, m] ty []).errs, ¬ BindErr e ∧ e.cls ≠ "out-of-fuel" :=
+  resolve_complete_binding env mM [leaf, lst, con, m] ty standing_env mM_mem mM_sch ty_in_m.1 rfl ty_in_m.2 resolvable_ty fuel hfuel
+/-- The executable specification accepts the reference (so `spec_exec_accepts` applies) … -/
+example : (match finish (chainOf env.reg 10 mM [leaf, lst, con, m] ty []) with
+    | .ok st => st.kind == "int32" | _ => false) = true := by decide +kernel
+/-- … and `spec_exec_binds_iff` applies at the reference (the binding is not `ambiguous`). -/
+example : bindType env.reg mM [leaf, lst, con, m] ty.arg ≠ .ambiguous := by rw [bind0]; intro h; cases h
+
+/-! ### A cyclic pair of typedefs (`typedef a { type b; } typedef b { type a; }`): `cyclic_is_error_below` applies -/
+def tyQa : Stmt := S "d.yang" "type" "b" 2 10 []
+def tyQb : Stmt := S "d.yang" "type" "a" 3 10 []
+def qa : Stmt := S "d.yang" "typedef" "a" 2 1 [tyQa]
+def qb : Stmt := S "d.yang" "typedef" "b" 3 1 [tyQb]
+def tyQ : Stmt := S "d.yang" "type" "a" 4 10 []
+def leafQ : Stmt := S "d.yang" "leaf" "l" 4 1 [tyQ]
+def d : Stmt := S "d.yang" "module" "d" 1 1 [S "d.yang" "prefix" "pd" 1 10 [], qa, qb, leafQ]
+def mD : Mod := ⟨0, d⟩
+def env4 : Env := { reg := { mods := [mD], modules := [("d", 0)] }, link := {}, dict := [], fuel := 10 }
+def q0 : Site := (mD, [leafQ, d], tyQ)
+def q1 : Site := (mD, [qa, d], tyQa)
+def q2 : Site := (mD, [qb, d], tyQb)
+
+theorem seqId_env4 : SeqId env4.reg := by
+  intro a ha b hb _
+  have ha' : a ∈ [mD] := ha
+  have hb' : b ∈ [mD] := hb
+  rw [List.mem_singleton] at ha' hb'
+  rw [ha', hb']
+theorem mD_mem : mD ∈ env4.reg.mods := List.mem_singleton.mpr rfl
+theorem bindQ0 : bindType env4.reg mD [leafQ, d] tyQ.arg = .typedef mD qa [d] := by rfl
+theorem bindQ1 : bindType env4.reg mD [qa, d] tyQa.arg = .typedef mD qb [d] := by rfl
+theorem bindQ2 : bindType env4.reg mD [qb, d] tyQb.arg = .typedef mD qa [d] := by rfl
+
+theorem usesQ0 : Uses env4.reg q0 q1 := Uses.base mD qa [d] tyQa (bindType_sound _ _ _ _ _ _ _ bindQ0) rfl
+theorem usesQ1 : Uses env4.reg q1 q2 := Uses.base mD qb [d] tyQb (bindType_sound _ _ _ _ _ _ _ bindQ1) rfl
+theorem usesQ2 : Uses env4.reg q2 q1 := Uses.base mD qa [d] tyQa (bindType_sound _ _ _ _ _ _ _ bindQ2) rfl
+
+/-- The reference `type a` of the leaf depends on a definition in terms of itself. -/
+theorem cyclic_q0 : Cyclic env4.reg q0 :=
+  ⟨q1, Or.inr (UsesPlus.one usesQ0), UsesPlus.cons usesQ1 (UsesPlus.one usesQ2)⟩
+
+theorem reachQ {a : Site} (h : UsesStar env4.reg q0 a) : a = q0 ∨ a = q1 ∨ a = q2 := by
+  induction h with
+  | refl => exact Or.inl rfl
+  | tail _ hbc ih =>
+    rcases ih with rfl | rfl | rfl
+    · rcases uses_of_bind seqId_env4 mD_mem bindQ0 (tt := tyQa) rfl hbc with h | ⟨ut, hut, _⟩
+      · exact Or.inr (Or.inl h)
+      · exact absurd hut (by rw [show tyQ.all "type" = [] from rfl]; exact List.not_mem_nil)
+    · rcases uses_of_bind seqId_env4 mD_mem bindQ1 (tt := tyQb) rfl hbc with h | ⟨ut, hut, _⟩
+      · exact Or.inr (Or.inr h)
+      · exact absurd hut (by rw [show tyQa.all "type" = [] from rfl]; exact List.not_mem_nil)
+    · rcases uses_of_bind seqId_env4 mD_mem bindQ2 (tt := tyQa) rfl hbc with h | ⟨ut, hut, _⟩
+      · exact Or.inr (Or.inl h)
+      · exact absurd hut (by rw [show tyQb.all "type" = [] from rfl]; exact List.not_mem_nil)
+
+/-- No name met while resolving it denotes two typedefs. -/
+theorem unamb_q0 : UnambiguousBelow env4.reg q0 := by
+  intro a ha
+  rcases reachQ ha with rfl | rfl | rfl
+  · exact unambiguousAt_of_bind seqId_env4 mD_mem bindQ0
+  · exact unambiguousAt_of_bind seqId_env4 mD_mem bindQ1
+  · exact unambiguousAt_of_bind seqId_env4 mD_mem bindQ2
+
+/-- `cyclic_is_error_below` applies: an error for every fuel and stack (the model says `cycle`). -/
+example (fuel : Nat) (stack : List TypeKey) : (resolveTypeF env4 fuel mD [leafQ, d] tyQ stack).errs ≠ [] :=
+  cyclic_is_error_below env4 fuel mD [leafQ, d] tyQ unamb_q0 stack (by decide) cyclic_q0
+example : ((resolveTypeF env4 10 mD [leafQ, d] tyQ []).errs.map (·.cls)) = ["cycle"] := by decide
+/-- The executable specification demands the error (`spec_exec_error` applies). -/
+example : (match chainOf env4.reg 10 mD [leafQ, d] tyQ [] with | .error => true | _ => false) = true := by decide +kernel
+
 end Ex
 
 end Goyang.Props.C09
